@@ -142,3 +142,52 @@ Proof.
     assert (E0 : st0 = force (init tx_cfg)) by (now rewrite Hi). rewrite E0. vm_compute. reflexivity. }
   split; [vm_compute; reflexivity|]. split; [vm_compute; reflexivity|]. split; vm_compute; reflexivity.
 Qed.
+
+(** A resume over a rollover: r gets offsets 0, 1, 2, acknowledges nothing and is disconnected
+    (resume point 0); while it is away twelve publishes of 300 bytes roll the log over: its base
+    moves to offset 7, the saved cursor is stale.  After the reconnect the new key's trace is
+    Res@0, Jump 0 -> 7 (FORWARD: offsets 0..6 were evicted), Fwd 7 .. 14. *)
+Definition jx_ops : list (list oracle * rop) :=
+  wx_plain ([tx_pconn 114; wx_conn 112; OpPush 0 (PSubscribe 1 [([116], 1)] None); OpData 0;
+             OpConsume; OpConsume; OpConsume; OpDrain 0; OpDrain 1;
+             OpPush 1 (wx_pub 0 1); OpPush 1 (wx_pub 0 2); OpPush 1 (wx_pub 0 3); OpData 1;
+             OpConsume; OpConsume; OpDrain 0;
+             OpDisconnect 0; OpDrain 0]
+            ++ map (fun i => OpPush 1 (tx_big (N.of_nat i))) (seq 1 12) ++ [OpData 1; OpConsume; OpDrain 1;
+             tx_pconn 114; OpConsume; OpConsume; OpConsume; OpDrain 2]).
+
+Example resume_jump_example :
+  let st := tx_st jx_ops in let tr := tx_tr jx_ops in
+  tx_run jx_ops = Ok (st, tr) /\
+  (exists st0, run_hyps tx_cfg st0 jx_ops st tr) /\
+  ends_of tr = [(0, 0, [0; 1; 2])] /\
+  map kshort (ktrace (2, [116], 0) tr) = (3, 0, 0) :: (1, 0, 7) :: fwds 7 8.
+Proof.
+  cbv zeta. assert (E : tx_run jx_ops = Ok (tx_st jx_ops, tx_tr jx_ops)) by (vm_compute; reflexivity).
+  split; [exact E|]. split.
+  { destruct (tx_hyps _ _ _ E) as (st0 & H & _); [vm_compute; reflexivity|vm_compute; reflexivity|]. eauto. }
+  split; vm_compute; reflexivity.
+Qed.
+
+(** clean_session at the old end, and the ConnAck flag: in [cx_ops] the connection that came back
+    with clean_session = TRUE (link 2) is removed at the end: no end marker under link 2 — the only
+    end marker of the run is the one of link 0.  The ConnAck committed by the reconnect carries
+    session_present = true in [rx_ops] (persistent, a request restored) and false in [cx_ops]. *)
+Definition committed_of (st : rstate) (id : N) : list ack :=
+  match slab_get (r_acks st) id with Some l => a_committed l | None => [] end.
+
+Example clean_end_example :
+  (exists st0, run_hyps tx_cfg st0 (cx_ops ++ wx_plain [OpDisconnect 0; OpDrain 2])
+                 (tx_st (cx_ops ++ wx_plain [OpDisconnect 0; OpDrain 2])) (tx_tr (cx_ops ++ wx_plain [OpDisconnect 0; OpDrain 2]))) /\
+  ends_of (tx_tr (cx_ops ++ wx_plain [OpDisconnect 0; OpDrain 2])) = [(0, 1, [1; 2])] /\
+  slab_get (r_obufs (tx_st (cx_ops ++ wx_plain [OpDisconnect 0; OpDrain 2]))) 0 = None /\
+  committed_of (tx_st (wx_plain (rx_away ++ [tx_pconn 114]))) 0 = [AConnAck 0 true] /\
+  committed_of (tx_st (wx_plain (rx_away ++ [wx_conn 114]))) 0 = [AConnAck 0 false].
+Proof.
+  split.
+  { assert (E : tx_run (cx_ops ++ wx_plain [OpDisconnect 0; OpDrain 2]) =
+                Ok (tx_st (cx_ops ++ wx_plain [OpDisconnect 0; OpDrain 2]), tx_tr (cx_ops ++ wx_plain [OpDisconnect 0; OpDrain 2])))
+      by (vm_compute; reflexivity).
+    destruct (tx_hyps _ _ _ E) as (st0 & H & _); [vm_compute; reflexivity|vm_compute; reflexivity|]. eauto. }
+  split; [vm_compute; reflexivity|]. split; [vm_compute; reflexivity|]. split; vm_compute; reflexivity.
+Qed.
